@@ -9,15 +9,72 @@ RULE = ("op `eval`: one failing construct (division/modulo by zero, bad index, m
 ASSUMPTIONS = c02.ASSUMPTIONS + ["constructs spanning several lines and errors raised by the frame/stack limits are not generated (the statement restricts itself to single-line constructs)"]
 HARNESS_TIMEOUT = 20
 canon = c02.canon
-model_skip = c02.model_skip
 classify = c02.classify
+BINARY_PROFILES = ["dev"]
+
+
+def model_skip(c):
+    # the end-to-end cases carry only the reported line (the binary prints no observation list)
+    return "e2e-line" in c.tags or c02.model_skip(c)
+
+
+def spec_override(c):
+    if "e2e-line" in c.tags:
+        # where the reference semantics commits to a failing line the binary must print exactly that line
+        if c.spec.startswith("m rterr "):
+            return "eq e2e rterr " + c.spec.split(" ")[2]
+        if c.spec.startswith("m ok"):
+            return "eq e2e ok"
+        return "nopanic"
+    return c.spec
+
+
+def run_e2e(exe, scratch, idx, c):
+    import os, re, subprocess
+    path = os.path.join(scratch, f"l{idx}.p2")
+    with open(path, "w", encoding="utf-8", newline="") as f:
+        f.write(c.extra["src"])
+    try:
+        p = subprocess.run([exe, path], stdin=subprocess.DEVNULL, stdout=subprocess.PIPE, stderr=subprocess.PIPE, timeout=30)
+    except subprocess.TimeoutExpired:
+        return "HANG"
+    err = p.stderr.decode("utf-8", "replace")
+    if "panicked" in err:
+        return "PANIC " + err[:160].encode("utf-8").hex()
+    m = re.search(r"\[line (\d+)\] Runtime error", err)
+    if m:
+        return "e2e rterr " + m.group(1)
+    if "compile error" in err or "parse error" in err:
+        return "e2e cerr"
+    return "e2e ok"
+
+
+def run_impl(ctx, cases):
+    import concurrent.futures as cf
+    import vlib
+    outs = [None] * len(cases)
+    hidx = [k for k, c in enumerate(cases) if "e2e-line" not in c.tags]
+    hout = vlib.run_parallel(ctx.harness, [cases[k].line for k in hidx], timeout=HARNESS_TIMEOUT, label="harness") if ctx.harness else ["NOHARNESS"] * len(hidx)
+    for k, o in zip(hidx, hout):
+        outs[k] = o
+    gidx = [k for k, c in enumerate(cases) if "e2e-line" in c.tags]
+    exe = ctx.p2sh.get("dev")
+    if not exe:
+        for k in gidx:
+            outs[k] = "NOHARNESS"
+    else:
+        scratch = ctx.mkscratch()
+        with cf.ThreadPoolExecutor(max_workers=16) as ex:
+            for k, o in zip(gidx, ex.map(lambda k: run_e2e(exe, scratch, k, cases[k]), gidx)):
+                outs[k] = o
+    return outs
 
 
 def nontrivial(c):
     if c.line.startswith("core "):
         # core fragment: the model compiler's line table and the reference evaluation's failing line were compared
         return c.impl.startswith("code=") and " rterr " in c.impl and c.spec.startswith("m code=") and " rterr " in c.spec
-    return c.impl.startswith("rterr") and c.spec.startswith("m rterr")
+    return (c.impl.startswith("rterr") or c.impl.startswith("e2e rterr")) and c.spec.startswith("m rterr")
 
 
 FAILING = ["1 / 0", "7 % 0", "1.5 / 0", "[1, 2][5]", "[1][-1]", "map {1: 2}[3]", 'map {"a": 1}["b"]', '1 + "a"', '"a" - "b"', "[1] - [2]", "true < false", '-"a"', "~1.5", "!1 + 1",
@@ -138,14 +195,29 @@ def cases(ctx):
             progs.append(("large-line-number", pad + src, expect + off))
     for s in gen_lang.programs(rng, ctx.scale(800, 40000), max_stmts=10, error_rate=0.08):
         progs.append(("generated", s, None))
-    srcs = [s for _, s, _ in progs]
+    # end to end through the binary (the text reaches the scanner as it is in the file: leading blank lines and comments count)
+    e2e = []
+    for _ in range(ctx.scale(160, 4000)):
+        src, expect, crlf = build(rng)
+        if crlf:
+            continue
+        lead = rng.choice(["", "\n", "\n\n\n", "# header\n\n", "  \n\t\n", "// a\n// b\n"])
+        e2e.append(("e2e-line", lead + src, expect + lead.count("\n")))
+    srcs = [s for _, s, _ in progs + e2e]
     lines = lang_lines(ctx, srcs)
-    return [Case(l, (t,), extra={"src": s, "expect_line": e}) for l, (t, s, e) in zip(lines, progs)] + core_cases(ctx)
+    return [Case(l, (t,), extra={"src": s, "expect_line": e}) for l, (t, s, e) in zip(lines, progs + e2e)] + core_cases(ctx)
 
 
 def judge(c):
     """independent of the AST lines: the failing construct's line as laid out by the generator"""
     e = (c.extra or {}).get("expect_line")
+    if "e2e-line" in c.tags:
+        # the line the binary prints is the generator's line (and, where the reference semantics commits, the oracle's)
+        if not c.impl.startswith("e2e "):
+            return False
+        if c.impl.startswith("e2e rterr "):
+            return c.impl == "e2e rterr " + str(e)
+        return None
     if e is not None and c.line.startswith("core "):
         # a core program built around one failing construct must fail, on the line of the failing operator
         t = c.impl.split(" ")
